@@ -288,6 +288,34 @@ def run(tier, seed, R):
                 continue
             for tokens in well_nested(ALPHABET, n):
                 one(sname, setup, tokens)
+    # the message classes glue itself defines: delivery must not depend on which kind of message it is (no kind is coalesced,
+    # dropped or reordered).  Each real class is the root 'A' of the harness hierarchy in turn (constructor replaced by Message's).
+    import inspect
+    from glue.core import message as GM
+    real = [c for n, c in sorted(vars(GM).items()) if inspect.isclass(c) and issubclass(c, GM.Message) and c is not GM.Message]
+    n_real = 4 if tier == 'quick' else 5
+    for base in real:
+        def mk(name, parent):
+            return type(name, (parent,), {'__init__': lambda self, sender, tag=None: GM.Message.__init__(self, sender, tag)})
+        A = mk('MA', base)
+        B = mk('MB', A)
+        K2 = {'A': A, 'B': B, 'C': mk('MC', B), 'X': mk('MX', GM.Message)}
+        for sname, setup in SETUPS:
+            if sname not in ('plain', 'delay-in-handler'):
+                continue
+            for n in range(2, n_real + 1):
+                for tokens in well_nested(ALPHABET, n):
+                    if not any(t[0] == 'd+' for t in tokens) or sum(1 for t in tokens if t[0] == 'b') < 2:
+                        continue
+                    try:
+                        got = run_schedule(RealAdapter(), K2, setup, tokens)
+                    except Exception as e:
+                        got = 'EXC %s: %s' % (type(e).__name__, e)
+                    ref = run_schedule(RefAdapter(), K2, setup, tokens)
+                    R.count(('real-class', base.__name__, sname, fmt(tokens)), 'hub-schedules-real-message-classes')
+                    if got != ref:
+                        R.fail("hub|message-kind|%s" % base.__name__, "messages of kind %s, setup=%s schedule=[%s]: real hub log %r, expected %r"
+                               % (base.__name__, sname, fmt(tokens), got if not isinstance(got, list) else got[-1], ref[-1]), None)
     # random longer schedules
     for _ in range(1500 if tier == 'quick' else 20000):
         n = rng.randint(7, 12)
